@@ -23,6 +23,56 @@ def gen_fit_case(rs, big=False):
     return X, kern, params
 
 
+NEAR = [0.0, 0.0, 0.0, 1e-9, -1e-9, 2e-9, 1e-10, -1e-10, 1e-11, 1e-12, -1e-12, 1e-15]
+
+
+def gen_near_tie_case(rs):
+    """data family "near ties": a feature whose values form a few coarse groups; inside a group the values are exactly tied or
+    differ by a relative 1e-9 .. 1e-15 (distinct float64 numbers, far below single precision), in either order of
+    appearance, next to ordinary gaps.  The kernel prefers a partition into blocks that are contiguous along the coarse
+    order but cut THROUGH the near-tie groups arbitrarily (precomputed block kernel, optionally noisy, or driven by a second
+    feature which may or may not be visible to the tree); min_samples_leaf sits at the size of a block (the boundary of
+    the admissible window), n is small (n = 2, 3 with default limits included)."""
+    n = int(rs.choice([2, 2, 3]) if rs.rand() < 0.15 else rs.randint(4, 11))
+    m = int(rs.randint(1, max(2, (n + 1) // 2) + 1))                      # coarse groups
+    bases = rs.choice([-3.0, -1.0, 0.5, 1.0, 2.0, 3.0, 7.0, 1000.0], size=m, replace=False)
+    coarse = bases[rs.randint(0, m, size=n)]
+    x0 = coarse * (1.0 + rs.choice(NEAR, size=n))
+    # blocks: contiguous along (coarse value, random tie-break)
+    order = np.lexsort((rs.rand(n), coarse))
+    G = int(rs.randint(2, 4)) if n > 2 else 2
+    cuts = np.sort(rs.choice(np.arange(1, n), size=min(G - 1, n - 1), replace=False))
+    grp = np.zeros(n, dtype=int)
+    grp[order] = np.searchsorted(cuts, np.arange(n), side="right")
+    sizes = np.bincount(grp)
+    kind = int(rs.randint(3))
+    g2 = (10 * grp + rs.randint(0, 3, size=n)).astype(float)
+    visible = rs.rand() < 0.5
+    X = np.column_stack([x0, g2]) if visible else x0[:, None]
+    if rs.rand() < 0.3:
+        X = np.column_stack([X, rs.randint(0, 3, size=n).astype(float)])
+    if kind == 0:
+        kern = (3 * (grp[:, None] == grp[None, :]) + np.eye(n, dtype=int)).astype(float)
+        if rs.rand() < 0.3:
+            N = rs.randint(-1, 2, size=(n, n))
+            kern += np.triu(N, 1) + np.triu(N, 1).T
+    elif kind == 1:
+        kern = np.outer(g2, g2)                                               # driven by the second feature (integer valued)
+    else:
+        F = np.column_stack([x0, g2])                                         # linear kernel of both features
+        kern = F @ F.T
+        kern = (kern + kern.T) / 2
+    msl = int(rs.choice([1, int(sizes.min()), int(sizes[0]), int(sizes[-1]), max(1, n // 2)]))
+    msl = max(1, min(msl, n // 2))
+    params = dict(max_clusters=int(rs.choice([2, G, G + 1])), max_depth=[None, None, 1, 2][rs.randint(4)],
+                  min_samples_leaf=msl, max_features=[None, None, 1][rs.randint(3)],
+                  max_leaves=[None, None, 2, 3][rs.randint(4)], kernel="precomputed", random_state=int(rs.randint(1000)))
+    params["min_samples_split"] = max(2, 2 * msl) + int(rs.choice([0, 0, 0, 1, n]))
+    if n <= 3 and rs.rand() < 0.5:
+        params.update(max_depth=None, min_samples_leaf=1, min_samples_split=2, max_features=None, max_leaves=None)   # the defaults
+    return X, kern, params
+
+
 def run_fit(X, kern, params):
     """real Kauri.fit on the transliterated (exact) find_best_split; returns the fitted model and the recorded RNG draws"""
     import gemclus.tree.kauri as K
@@ -168,15 +218,23 @@ def invariants(model, X, kern, params, pred, score):
 def run(ctx):
     ctx.rule = ("random Kauri.fit runs on integer data (n in 1..9/13, d in 1..3, ties and constant columns) with symmetric integer "
                 "precomputed kernels (PSD or not), all combinations of max_clusters 1..5, max_depth None/1..4, min_samples_split, "
-                "min_samples_leaf 1..3, max_features None/1/2/5, max_leaves None/2/3/4/6, seeds; non-trivial = the tree has >= 1 split")
+                "min_samples_leaf 1..3, max_features None/1/2/5, max_leaves None/2/3/4/6, seeds; non-trivial = the tree has >= 1 split. "
+                "Plus a family 'near ties': n in 2..10, a feature with exact ties and values 1e-9..1e-15 relative apart in either order, "
+                "block / second-feature / linear kernels whose blocks cut through the near-tie groups, min_samples_leaf at a block size")
     c08.regen(ctx)
     ctx.do_prove()
     nf = 80 if ctx.tier == "quick" else 800
     rs = np.random.RandomState(ctx.seed * 7 + 9)
     cases, lines, impls = [], [], []
     how = "harness.props.c09.run_fit(X, kernel, params) (Kauri.fit on the transliterated _utils.pyx) ; invariants()"
-    for _ in range(nf):
-        X, kern, params = gen_fit_case(rs, big=ctx.tier != "quick")
+    rs2 = np.random.RandomState(ctx.seed * 7919 + 90013)      # own stream: the older families keep their inputs
+    nt = 150 if ctx.tier == "quick" else 1500
+    for fam, rg in [("plain", rs)] * nf + [("near-tie", rs2)] * nt:
+        if fam == "plain":
+            X, kern, params = gen_fit_case(rg, big=ctx.tier != "quick")
+        else:
+            X, kern, params = gen_near_tie_case(rg)
+            ctx.count("family:near-tie")
         inp = {"X": X.tolist(), "kernel": kern.tolist(), "params": params}
         try:
             model, draws, score, pred = run_fit(X, kern, params)
@@ -197,7 +255,10 @@ def run(ctx):
         impls.append(canon_impl(model, score, pred))
         lines.append(fit_line(X, kern, params, draws))
         # new points: label of the leaf region that contains them (routing is per row)
-        Xn = rs.randint(-1, 4, size=(5, X.shape[1])).astype(float)
+        Xn = rg.randint(-1, 4, size=(5, X.shape[1])).astype(float)
+        if fam == "near-tie":
+            # points a hair beside the training values (on either side of a threshold)
+            Xn[:3] = X[rg.randint(0, len(X), size=3)] * (1.0 + rg.choice(NEAR, size=(3, X.shape[1])))
         pn = model.predict(Xn)
         for r in range(len(Xn)):
             node = 0
@@ -212,7 +273,7 @@ def run(ctx):
             if alone != t.target[node]:
                 ctx.violation(f"new point {Xn[r].tolist()} predicted alone gives {alone} but lies in the region of leaf node {node} "
                               f"(cluster {t.target[node]})", "predict", {**inp, "x": Xn[r].tolist()}, key="predict:new-point:alone", how=how)
-        for i in rs.choice(len(X), size=min(3, len(X)), replace=False):
+        for i in rg.choice(len(X), size=min(3, len(X)), replace=False):
             alone = model.predict(X[i:i + 1])[0]
             if alone != model.labels_[i]:
                 ctx.violation(f"training sample {int(i)} predicted alone gives {alone}, its label is {model.labels_[i]}", "predict",
